@@ -101,8 +101,8 @@ def k_clearsign(exitst: int, keyid: int):
             raised = True
     argv = w.calls[0]['argv']
     args_ok = ('--clearsign' in argv and w.stdin == [b'DATA a 1\n']
-               and (('--local-user' in argv and argv[argv.index('--local-user') + 1] == kid)
-                    if kid else '--local-user' not in argv))
+               and ((kid in argv) if kid else all(a.startswith('-') or a == argv[0]
+                                                  for a in argv)))
     if exitst != 0:
         return raised and outf.getvalue() == '' and args_ok, True
     return (not raised) and outf.getvalue() == 'SIGNED OUTPUT' and args_ok, False
